@@ -21,7 +21,8 @@ RULE = ('complete table: case = (entry point, marker placement, pending text, ch
         'or a pending occurrence had to beat the marker')
 ASSUMPTIONS = ['part A replaces the transport by a scripted read_nonblocking; part B uses real kernel objects with a virtual clock']
 REQUIRED_FLAGS = {'eof_index': 1, 'eof_raised': 1, 'timeout_index': 1, 'timeout_raised': 1,
-                  'pending_beats_marker': 1, 'after_eof_again': 1, 'occurrence_outside_window': 1}
+                  'pending_beats_marker': 1, 'after_eof_again': 1, 'occurrence_outside_window': 1,
+                  'dead_child_silent_tty': 1}
 
 M = {'E': EOF, 'T': TIMEOUT}
 PLACEMENTS = [(), ('E',), ('T',), ('E', 'p'), ('p', 'E'), ('T', 'p'), ('p', 'T'), ('p', 'E', 'q'),
